@@ -24,4 +24,6 @@ let table : (string * (BinNums.coq_N list -> BinNums.coq_N list)) list = [
   ("chk_pk", PkCorr.chk_pk);
   ("mon_c02", PkCorr.mon_c02);
   ("mon_c03", PkCorr.mon_c03);
+  ("mon_c04", PkCorr.mon_c04);
+  ("chk_c04", PkCorr.chk_c04);
 ]
